@@ -7,6 +7,7 @@ from .._change import ListInsert
 from .._change import Replace
 from .._global_state import state
 from .._sentinels import undefined
+from .._unmanaged import Unmanaged
 from .._utils import value_to_token
 from .generic_value import GenericValue
 from .generic_value import clone
@@ -55,6 +56,10 @@ class CollectionValue(GenericValue):
                     node=old_node,
                     old_value=old_value,
                 )
+                continue
+
+            if isinstance(old_value, Unmanaged) or isinstance(old_node, ast.JoinedStr):
+                # Is(...) and f-strings are not managed by inline-snapshot
                 continue
 
             # check for update
